@@ -460,8 +460,13 @@ class Connection(object):
             self.connected = False
 
             if not immediate and self.socket is not None:
-                # Flush any packets remaining in the queue.
-                while self._pop_packet():
+                # Flush any packets remaining in the queue. The server may
+                # already have closed the connection, in which case nothing
+                # more can be written, which does not represent an error.
+                try:
+                    while self._pop_packet():
+                        pass
+                except IOError:
                     pass
 
             if self.new_networking_thread is not None:
